@@ -408,3 +408,179 @@ def run_zbdd(ctx, F, rule="E-TABLE.pick"):
                "zbdd %s (%s): %s" % (suffix[2:], F.where(fid), "%d situation(s) wrong; first: %s" % (len(fails), " || ".join(fails[:3]))
                                      if fails else "ok"))
     return n
+
+
+def check_add_literal(ctx, F, rule="E-TABLE.pick.literal"):
+    """BCDD `add_literal_to_cube(manager, sub, level, positive)` (a builtin of the pick rules above): interpreted for
+    sub in {x, !x, true} and both polarities; the result must denote (v if positive else !v) & sub for all values of
+    x and v, be created at `level`, and be in complement-edge normal form (then-edge untagged)."""
+    fid = "oxidd_rules_bdd::complement_edge::add_literal_to_cube"
+    if not ctx.anchor(rule, fid, fid in F.hir):
+        return 0
+    bt = Enum("oxidd_rules_bdd::complement_edge::BCDDTerminal")
+    none, comp = Enum(ETAG + "None"), Enum(ETAG + "Complemented")
+    subs = [Edge(("N", "x"), none), Edge(("N", "x"), comp), Edge(("T", bt), none)]
+    fails = []
+    n = 0
+    for sub in subs:
+        for positive in (True, False):
+            def mk(oracle):
+                return Interp(F, PickDomain(F, fid), oracle)
+            for trace, (status, val) in enumerate_runs(mk, lambda it: it.call_fn(fid, [Opaque("manager"), sub, 4, positive])):
+                n += 1
+                sit = "add_literal_to_cube(%r, level 4, %s)" % (sub, "positive" if positive else "negative")
+                v = val.args[0] if status == "ok" and isinstance(val, Enum) and val.path == OK else None
+                if not (isinstance(v, Edge) and v.node[0] == "NEW"):
+                    fails.append("%s: %s %r, expected a new node" % (sit, status, val))
+                    continue
+                if v.node[1] != 4 or v.node[2] != 4:
+                    fails.append("%s: node created at level %r / inserted at %r, expected 4" % (sit, v.node[2], v.node[1]))
+                t = v.node[3][0]
+                if isinstance(t.tag, Enum) and t.tag.short == "Complemented":
+                    fails.append("%s: the then-edge of the new node is complemented (not in normal form: an equal function gets a "
+                                 "second representation)" % sit)
+                for x in (0, 1):
+                    for dv in (0, 1):
+                        valn = {"x": x, "v": dv}
+                        got = ereduce.den(ereduce.BCDD_KIND, v, valn)
+                        want = (dv if positive else 1 - dv) & ereduce.den(ereduce.BCDD_KIND, sub, valn)
+                        if got != want:
+                            fails.append("%s: with x=%d, v=%d the result evaluates to %d, expected %d" % (sit, x, dv, got, want))
+                            break
+                    else:
+                        continue
+                    break
+    ctx.ob(rule, rule, not fails, "%s (%s): %s" % (fid, F.where(fid), "%d situation(s) wrong; first: %s" % (len(fails), " || ".join(fails[:3]))
+                                                   if fails else "the literal is conjoined with the sub-cube, normal form kept"))
+    return n
+
+
+class Sym:
+    """symbolic number term"""
+    __slots__ = ("t",)
+
+    def __init__(self, t):
+        self.t = t
+
+    def __eq__(self, o):
+        return isinstance(o, Sym) and o.t == self.t
+
+    def __hash__(self):
+        return hash(self.t)
+
+    def __repr__(self):
+        return repr(self.t)
+
+
+class UniformDomain(PickDomain):
+    def __init__(self, F, fid):
+        super().__init__(F, fid)
+        self.compared = []
+        self.closure = None
+
+    def call(self, it, name, f, args_e, env, e):
+        n = f.get("n", "")
+        if n.endswith("::pick_cube_edge"):
+            args = [it.ev(a, env) for a in args_e]
+            self.closure = args[2]
+            self.pick_args = args[:2]
+            return Opaque("picked cube")
+        if n.endswith("::cofactors_node"):
+            tag, node = [it.ev(a, env) for a in args_e]
+            return (Edge(("COF", 0, repr(tag), repr(node))), Edge(("COF", 1, repr(tag), repr(node))))
+        if n.endswith("::sat_count_edge"):
+            args = [it.ev(a, env) for a in args_e]
+            return (Sym(("count", args[1], args[2])),)
+        return super().call(it, name, f, args_e, env, e)
+
+    def method(self, it, m, e, env):
+        name = m.rsplit("::", 1)[-1]
+        if name == "num_levels":
+            it.recv(e, env)
+            return Sym(("num_levels",))
+        if name == "generate":
+            it.recv(e, env)
+            return Sym(("rng",))
+        if name == "unwrap_inner":
+            r = it.recv(e, env)
+            return ("node-of", repr(r))
+        if m == "oxidd_core::Manager::get_node":
+            it.recv(e, env)
+            (edge,) = it.args(e, env)
+            return ("node", edge)
+        if m == "oxidd_core::Edge::tag":
+            r = it.recv(e, env)
+            return ("tag-of", repr(r))
+        return super().method(it, m, e, env)
+
+    def call_value(self, it, fv, args):
+        if isinstance(fv, tuple) and fv and fv[0] == "closure":
+            _, ce, cenv = fv
+            env = dict(cenv)
+            for p, a in zip(ce.get("params", []), args):
+                it.match(p, a, env)
+            return it.ev(ce["body"], env)
+        raise Unrecognised("call of %r" % (fv,))
+
+    def binop(self, it, o, l, r):
+        if isinstance(l, Sym) or isinstance(r, Sym):
+            return Sym((o, l, r))
+        return super().binop(it, o, l, r)
+
+    def compare(self, it, a, b):
+        if isinstance(a, Sym) or isinstance(b, Sym):
+            self.compared.append((a, b))
+            return -1 if it.fork(("cmp", repr(a), repr(b)), 2, "rng<p") == 0 else 1
+        return super().compare(it, a, b)
+
+
+def check_uniform(ctx, F, rule="E-TABLE.pick.uniform"):
+    """`BooleanFunction::pick_cube_uniform_edge` (trait default): the choice closure handed to `pick_cube_edge` takes the
+    then-branch iff  rng < count(then) / (count(then) + count(else)),  where (then, else) = cofactors_node(tag of the
+    edge, node of the edge) and both counts are sat_count_edge over the same variable count (num_levels) and cache."""
+    fid = "oxidd_core::function::BooleanFunction::pick_cube_uniform_edge"
+    if not ctx.anchor(rule, fid, fid in F.hir):
+        return 0
+    holder = {}
+    fails = []
+    n = 0
+    E0 = Edge(("N", "root"))
+
+    def mk(oracle):
+        holder["d"] = UniformDomain(F, fid)
+        return Interp(F, holder["d"], oracle)
+
+    def go(it):
+        it.call_fn(fid, [Opaque("manager"), E0, Opaque("cache"), Opaque("rng")])
+        d = holder["d"]
+        if d.closure is None:
+            raise Unrecognised("pick_cube_edge is not called with a choice closure")
+        cur = Edge(("N", "cur"))
+        return d.call_value(it, d.closure, [Opaque("manager"), cur, 3])
+    for trace, (status, val) in enumerate_runs(mk, go):
+        n += 1
+        d = holder["d"]
+        if status != "ok":
+            fails.append("%s %s" % (status, val))
+            continue
+        if d.pick_args[1] != E0:
+            fails.append("pick_cube_edge is started on %r, not on the given edge" % (d.pick_args[1],))
+        if len(d.compared) != 1:
+            fails.append("%d comparisons in the choice (expected one: rng < probability)" % len(d.compared))
+            continue
+        a, b = d.compared[0]
+        took_then = (dict(trace).get("rng<p") == 0)
+        if val is not took_then:
+            fails.append("the closure answers %r when rng < p is %r" % (val, took_then))
+        cur = Edge(("N", "cur"))
+        tag, node = ("tag-of", repr(cur)), ("node-of", repr(("node", cur)))
+        cof = [Edge(("COF", i, repr(tag), repr(node))) for i in (0, 1)]
+        vars_ = Sym(("num_levels",))
+        ct, ce = Sym(("count", cof[0], vars_)), Sym(("count", cof[1], vars_))
+        want = [Sym(("/", ct, Sym(("+", ct, ce)))), Sym(("/", ct, Sym(("+", ce, ct))))]
+        if a != Sym(("rng",)) or b not in want:
+            fails.append("the then-branch is taken iff %r < %r, expected rng < count(then) / (count(then) + count(else)) with the "
+                         "cofactors of the current node and the manager's number of levels" % (a, b))
+    ctx.ob(rule, rule, not fails and n >= 2, "%s (%s): %s" % (fid, F.where(fid), " || ".join(fails[:2]) if fails else
+                                                             "branch probability = count(then) / (count(then) + count(else))"))
+    return n
